@@ -341,14 +341,14 @@ BASES = [
     ('live-tears', '/dash/live/tears/hand_made.mpd?depth=8', 'live', {'depth': '8'}),
     # on-demand profile: every media request is a byte range of one file
     ('odvod', '/dash/odvod/bbb/manifest_vod_aiv.mpd', 'odvod', {}),
+    ('mps-vod', '/mps/vod/testmps/hand_made.mpd', 'vod', {}),
+    ('live-patch', '/dash/live/bbb/hand_made.mpd?depth=8&timeline=1&patch=1', 'live', {'depth': '8', 'timeline': '1', 'patch': '1'}),
+    ('live-events', '/dash/live/bbb/hand_made.mpd?depth=30&events=ping', 'live', {'depth': '30', 'events': 'ping'}),
 ]
 # thorough tier only
 MORE_BASES = [
     ('odvod-hand-made', '/dash/odvod/bbb/hand_made.mpd', 'odvod', {}),
-    ('mps-vod', '/mps/vod/testmps/hand_made.mpd', 'vod', {}),
-    ('live-patch', '/dash/live/bbb/hand_made.mpd?depth=8&timeline=1&patch=1', 'live', {'depth': '8', 'timeline': '1', 'patch': '1'}),
     ('vod-tears-timeline', '/dash/vod/tears/manifest_e.mpd?timeline=1', 'vod', {'timeline': '1'}),
-    ('live-events', '/dash/live/bbb/hand_made.mpd?depth=30&events=ping', 'live', {'depth': '30', 'events': 'ping'}),
 ]
 
 
